@@ -66,6 +66,7 @@ MAX_RUN_STEPS = 20000
 
 PLACERS = ["sequential", "breadth_first", "hilbert", "rcm", "rand", "sa-py",
            "sa-c"]
+KF_CK32 = "c-kernel-quantities-beyond-32-bit"
 CLASSES = ["easy", "general", "tight", "infeasible", "groups", "tiny",
            "deadloc", "sa_tight", "alldead"]
 
@@ -211,8 +212,24 @@ def gen(cls, idx, rng, tier):
                   chip_order=co if rng.random() < .7 else None)
     elif placer == "hilbert":
         kw = dict(breadth_first=rng.random() < .5)
+    scaled = None
+    if not easy and rng.random() < .08:
+        # the same problem in much larger units: every quantity of one
+        # resource multiplied by a big number (placement is scale-free)
+        name = rng.choice(sorted(m["res"]))
+        k = rng.choice([(1 << 20) + 1, (1 << 33) + 1, (1 << 54) + 1,
+                        10 ** 17 + 7])
+        scaled = (name, k)
+        m["res"][name] *= k
+        for xy in m["exc"]:
+            if name in m["exc"][xy]:
+                m["exc"][xy][name] *= k
+        vertices = [(v, {n: q * k if n == name else q for n, q in r.items()})
+                    for v, r in vertices]
+        cons = [(c[0], c[1], c[2] * k, c[3] * k, c[4])
+                if c[0] == "reserve" and c[1] == name else c for c in cons]
     return dict(machine=m, vertices=vertices, nets=nets, constraints=cons,
-                placer=placer, kw=kw, easy=easy)
+                placer=placer, kw=kw, easy=easy, scaled=scaled)
 
 
 def gen_sa_tight(rng, idx):
@@ -457,6 +474,19 @@ def run(case, ctx):
         raise Rejected(type(e).__name__)
     except Violation:
         raise
+    except OverflowError as e:
+        biggest = max([0] + [q for _, r in case["vertices"]
+                             for q in r.values()] +
+                      list(m["res"].values()) +
+                      [q for r in m["exc"].values() for q in r.values()])
+        if case["placer"] == "sa-c" and biggest >= 1 << 29:
+            # listed finding: the C kernel's 32-bit quantities
+            ctx.finding("unexpected-exception", KF_CK32,
+                        "%s: OverflowError: %s (largest quantity %d)" %
+                        (what, e, biggest))
+            return
+        raise Violation("unexpected-exception", "%s: OverflowError: %s" %
+                        (what, e))
     except Exception as e:
         raise Violation("unexpected-exception", "%s: %s: %s" %
                         (what, type(e).__name__, e))
